@@ -3,8 +3,8 @@
 cd /verif
 for p in "$@"; do
   for v in a b; do
-    [ -f /tmp/seed7/$p/MUTANT/$v/patch.diff ] || { echo "$p-7$v: not delivered"; continue; }
-    ROUND=7 ./seedtest2.sh $p /tmp/seed7/$p $v $p 2>&1 | grep -v "^WARNING conda"
+    [ -f /tmp/seed8/$p/MUTANT/$v/patch.diff ] || { echo "$p-8$v: not delivered"; continue; }
+    ROUND=8 ./seedtest2.sh $p /tmp/seed8/$p $v $p 2>&1 | grep -v "^WARNING conda"
   done
 done
 git -C /repo status --short
